@@ -386,7 +386,7 @@ def check_case(ctx: runner.Ctx, case):  # noqa: C901, PLR0912, PLR0915
 
 
 def explore(ctx: runner.Ctx):
-    n = ctx.budget(3500, 200000)
+    n = ctx.budget(7000, 300000)
     ctx.given(st_case(), lambda c: check_case(ctx, c), int(n * 0.75))
     ctx.given(st_case_layout(), lambda c: check_case(ctx, c), max(1, int(n * 0.25)), seed_offset=1)
 
